@@ -13,7 +13,7 @@ import (
 func init() {
 	register(&Property{
 		ID:       "C06",
-		Patterns: []string{".", "./internal/filter/..."},
+		Patterns: []string{".", "./internal/filter/...", "golang.org/x/image/ccitt"},
 		Run:      runC06,
 		Explanation: "Static rules on the encodable stream filters: (R1) every filter name an Info method can emit is a case of MakeFilter; (R2) for each parameterised filter the set of DecodeParms keys written by Info/toDict equals the set read by its parse function; (R4) in every filter type Encode and Decode hand the same parameters, position by position, to the encoder/decoder pair, and FilterCompress selects Flate vs LZW by the same version predicate in Info, Encode and Decode; " +
 			"(R5) OpenStream applies the filters of its argument slice in one loop that calls Encode, then Info, then appendFilter, so the /Filter order is the application order; (R7) the LZW encoder advances its code width after every data code it emits (also the last one, before the end-of-data code), and encoder and decoder share the same width/clear/eof constants. " +
@@ -21,7 +21,7 @@ func init() {
 	})
 	register(&Property{
 		ID:       "C07",
-		Patterns: []string{".", "./internal/filter/..."},
+		Patterns: []string{".", "./internal/filter/...", "golang.org/x/image/ccitt"},
 		Run:      runC07,
 		Explanation: "Only the part of interoperability that lives in constants shared by an encoder and its decoder, which a round-trip test cannot see because a single edit keeps the pair consistent: (R1) LZW literal width 8, maximum width 12, clear 256, end-of-data 257, first code width 9 (TIFF 6 / ISO 32000-2 7.4.4); (R3) RunLength end-of-data 128, ASCII85 terminator and 'z' shortcut, PNG predictor tag = Predictor - 10, Flate uses compress/zlib (zlib wrapper); " +
 			"(R4) the Paeth predictor's tie-breaking order a, b, c (PNG specification) as a shape over its three comparisons; (R5) the LZW writer's width advance after the final data code (a decoder widens after every code). Decides these constants and shapes; everything algorithmic and decoding of foreign-encoded data is NOT decided.",
@@ -40,6 +40,7 @@ func runC06(c *core.Ctx) {
 	ruleCCITTRefLine(c, "C06-R10")
 	ruleLZWEarlyChange(c)
 	ruleCCITTNoEOLInGroup4(c)
+	ruleCCITTTables(c, "C06-R6")
 	ruleAliasHygiene(c, [3]string{"C06-R12", "C06-R13", "C06-R14"}, "pdf/internal/filter/lzw", "pdf/internal/filter/predict", "pdf/internal/filter/runlength", "pdf/internal/filter/ccittfax", "pdf/internal/filter/ascii85", "pdf/internal/filter/asciihex")
 }
 
@@ -89,6 +90,7 @@ func runC07(c *core.Ctx) {
 	rulePredictorGeometry(c, "C07-R6")
 	ruleTIFF16Carry(c, "C07-R7")
 	rulePNGAverage(c, "C07-R8")
+	ruleCCITTTables(c, "C07-R2")
 }
 
 func ruleFilterNames(c *core.Ctx) {
